@@ -1,1 +1,234 @@
-// Verification-only module (cfg(kani)); harnesses are added here.
+// Verification-only module (cfg(kani)) for C03: PrivateMessageContent (RFC 9420 section
+// 6.3.1) is decoded by a hand-written, content-type dependent decoder that must reject any
+// non-zero padding byte, and must never panic on attacker-controlled plaintext.
+//
+//   struct {
+//       select (PrivateMessage.content_type) {
+//           case application: opaque application_data<V>;
+//           case proposal:    Proposal proposal;
+//           case commit:      Commit commit;
+//       };
+//       FramedContentAuthData auth;      // opaque signature<V>; + confirmation_tag for commit
+//       opaque padding[length_of_padding];   // "MUST be all zero", receiver MUST check
+//   } PrivateMessageContent;
+//
+// Contracts are stated at the harness.  Byte VALUES are fully symbolic, the buffer LENGTH is
+// bounded (`_bounded_<n>`).
+use super::*;
+use crate::group::{ConfirmationTag, MessageSignature, RemoveProposal};
+use alloc::boxed::Box;
+use alloc::vec::Vec;
+
+// zeroize::optimization_barrier is inline asm (unsupported by Kani); ApplicationData is
+// ZeroizeOnDrop.  Same signature as zeroize 1.9.0 `pub fn optimization_barrier<T: ?Sized>(val: &T)`.
+fn noop_barrier<T: ?Sized>(_val: &T) {}
+
+/// Independent oracle for the Application layout over a buffer shorter than 64 bytes
+/// (RFC 9420 section 2.1.2 variable-size vector headers: a 1-byte header 0b00xxxxxx announces
+/// a length < 64; any other header either announces >= 64 bytes - more than the buffer holds -
+/// or is not the minimum-size encoding, or is the invalid prefix 0b11: rejected in all cases).
+/// Returns Some((data_len, sig_len)) iff the buffer is
+///     data_len || data || sig_len || sig || 0*
+fn oracle_application(input: &[u8]) -> Option<(usize, usize)> {
+    let len = input.len();
+    if len == 0 {
+        return None;
+    }
+    let h1 = input[0];
+    if h1 >> 6 != 0 {
+        return None;
+    }
+    let l1 = h1 as usize;
+    let p2 = 1 + l1; // position of the signature header
+    if p2 >= len {
+        return None;
+    }
+    let h2 = input[p2];
+    if h2 >> 6 != 0 {
+        return None;
+    }
+    let l2 = h2 as usize;
+    let end = p2 + 1 + l2;
+    if end > len {
+        return None;
+    }
+    let mut i = end;
+    while i < len {
+        if input[i] != 0 {
+            return None; // non-zero padding
+        }
+        i += 1;
+    }
+    Some((l1, l2))
+}
+
+fn application_body<const N: usize>() {
+    let buf: [u8; N] = kani::any();
+    let len: usize = kani::any();
+    kani::assume(len <= N);
+    let input = &buf[..len];
+
+    let mut reader = input;
+    // never a panic: every panic / overflow / out-of-bounds check inside the call is a
+    // proof obligation of this harness
+    let r = PrivateMessageContent::mls_decode(&mut reader, ContentType::Application);
+    let expect = oracle_application(input);
+
+    match r {
+        Err(_) => assert!(expect.is_none()),
+        Ok(v) => {
+            // accepted <==> well-formed and zero padded
+            assert!(expect.is_some());
+            let (l1, l2) = expect.unwrap();
+            let consumed = 1 + l1 + 1 + l2;
+
+            // true payload is reported: content and signature are the announced sub-slices
+            match &v.content {
+                Content::Application(data) => {
+                    assert!(data.as_bytes().len() == l1);
+                    let mut i = 0;
+                    while i < l1 {
+                        assert!(data.as_bytes()[i] == input[1 + i]);
+                        i += 1;
+                    }
+                }
+                _ => assert!(false),
+            }
+            assert!(v.auth.confirmation_tag.is_none());
+            assert!(v.auth.signature.len() == l2);
+            let mut i = 0;
+            while i < l2 {
+                assert!(v.auth.signature[i] == input[2 + l1 + i]);
+                i += 1;
+            }
+
+            // the reader is left on the padding, and every padding byte is zero
+            assert!(reader.len() == len - consumed);
+            let mut i = consumed;
+            while i < len {
+                assert!(input[i] == 0);
+                i += 1;
+            }
+
+            // re-encoding reproduces the consumed bytes (up to padding)
+            assert!(v.mls_encoded_len() == consumed);
+            let mut out = Vec::new();
+            v.mls_encode(&mut out).unwrap();
+            assert!(out.len() == consumed);
+            let mut i = 0;
+            while i < consumed {
+                assert!(out[i] == input[i]);
+                i += 1;
+            }
+
+            kani::cover!(l1 == 3 && l2 == 2 && len == N); // data, signature and padding
+            kani::cover!(l1 == 0 && l2 == 0 && len == 2); // minimal message, no padding
+            kani::cover!(consumed == len && len == N); // no padding at full length
+            core::mem::drop(v);
+        }
+    }
+    kani::cover!(expect.is_none() && len == N);
+}
+
+#[kani::proof]
+#[kani::unwind(12)]
+#[kani::stub(zeroize::optimization_barrier, noop_barrier)]
+fn c03_private_content_application_bounded_10() {
+    application_body::<10>();
+}
+
+/// Focused restatement of the padding rule alone: take ANY accepted buffer and flip ANY
+/// padding position to ANY non-zero value: the result is rejected.
+#[kani::proof]
+#[kani::unwind(12)]
+#[kani::stub(zeroize::optimization_barrier, noop_barrier)]
+fn c03_private_content_nonzero_padding_rejected_bounded_10() {
+    const N: usize = 10;
+    let mut buf: [u8; N] = kani::any();
+    let len: usize = kani::any();
+    kani::assume(len <= N);
+
+    let consumed = {
+        let mut reader = &buf[..len];
+        match PrivateMessageContent::mls_decode(&mut reader, ContentType::Application) {
+            Ok(v) => v.mls_encoded_len(),
+            Err(_) => {
+                kani::assume(false);
+                0
+            }
+        }
+    };
+    let pos: usize = kani::any();
+    let val: u8 = kani::any();
+    kani::assume(pos >= consumed && pos < len && val != 0);
+    buf[pos] = val;
+    let mut reader = &buf[..len];
+    let r = PrivateMessageContent::mls_decode(&mut reader, ContentType::Application);
+    assert!(matches!(r, Err(mls_rs_codec::Error::Custom(5))));
+    kani::cover!(pos == len - 1 && pos > consumed);
+    kani::cover!(pos == consumed);
+}
+
+/// impl From<&Content> for ContentType / Content::content_type: the obvious mapping, and the
+/// wire values of RFC 9420 section 6 (application = 1, proposal = 2, commit = 3).
+#[kani::proof]
+#[kani::unwind(4)]
+#[kani::stub(zeroize::optimization_barrier, noop_barrier)]
+fn c03_content_type_mapping() {
+    let b: [u8; 2] = kani::any();
+    let app = Content::Application(ApplicationData::from(b.to_vec()));
+    assert!(app.content_type() == ContentType::Application);
+    assert!(ContentType::from(&app) == ContentType::Application);
+
+    let idx: u32 = kani::any();
+    kani::assume(idx <= 0x00FF_FFFF);
+    let prop = Content::Proposal(Box::new(Proposal::Remove(RemoveProposal {
+        to_remove: LeafIndex::unchecked(idx),
+    })));
+    assert!(prop.content_type() == ContentType::Proposal);
+    assert!(ContentType::from(&prop) == ContentType::Proposal);
+
+    let commit = Content::Commit(Box::new(Commit { proposals: Vec::new(), path: None }));
+    assert!(commit.content_type() == ContentType::Commit);
+    assert!(ContentType::from(&commit) == ContentType::Commit);
+
+    assert!(ContentType::Application as u8 == 1);
+    assert!(ContentType::Proposal as u8 == 2);
+    assert!(ContentType::Commit as u8 == 3);
+}
+
+/// FramedContentAuthData::mls_decode: a confirmation tag is parsed for, and only for, commits
+/// (RFC 9420 section 6.1), so that the padding check of PrivateMessageContent starts at the
+/// right offset for every content type.
+#[kani::proof]
+#[kani::unwind(10)]
+fn c03_auth_data_by_content_type_bounded_6() {
+    const N: usize = 6;
+    let buf: [u8; N] = kani::any();
+    let len: usize = kani::any();
+    kani::assume(len <= N);
+    let input = &buf[..len];
+    let k: u8 = kani::any();
+    kani::assume(k < 3);
+    let ct = match k {
+        0 => ContentType::Application,
+        1 => ContentType::Proposal,
+        _ => ContentType::Commit,
+    };
+    let mut reader = input;
+    if let Ok(a) = FramedContentAuthData::mls_decode(&mut reader, ct) {
+        let consumed = len - reader.len();
+        assert!(a.confirmation_tag.is_some() == (k == 2));
+        assert!(a.mls_encoded_len() == consumed);
+        let mut out = Vec::new();
+        a.mls_encode(&mut out).unwrap();
+        assert!(out.len() == consumed);
+        let mut i = 0;
+        while i < consumed {
+            assert!(out[i] == input[i]);
+            i += 1;
+        }
+        kani::cover!(k == 2 && consumed == N);
+        kani::cover!(k == 0 && consumed == N);
+    }
+}
